@@ -178,8 +178,10 @@ theorem ofF64_neg_of_intVal {m : Nat} {e : Int} {V : Nat} (h : IntVal m e V) (hV
     rw [this]
     simp only [Nat.mul_one, decide_eq_true_eq]
     exact Nat.mul_lt_mul_of_pos_right hV hd
+  have h3' : F64.le (F64.ofInt (-(2 ^ 63))) (fin true m e) = true := by
+    simp only [F64.le, h3, Bool.true_or]
   refine ⟨(fin true m e).toI64, ?_⟩
-  simp only [Num.ofF64, h.fract true, h1, h2, h3, Bool.false_and, Bool.and_self,
+  simp only [Num.ofF64, h.fract true, h1, h2, h3', Bool.false_and, Bool.and_self,
     Bool.false_eq_true, if_true, if_false]
 
 
